@@ -1,5 +1,9 @@
 import CtrlVerif.Driver.TF
 import CtrlVerif.Driver.SS
+import CtrlVerif.Driver.Shape
+import CtrlVerif.Driver.Config
+import CtrlVerif.Driver.Index
+import CtrlVerif.Driver.FRD
 
 namespace CtrlVerif.Driver
 
@@ -8,6 +12,10 @@ def dispatch (line : String) : String :=
   | [] => "bad-op empty"
   | "tf" :: rest => TF.handle rest
   | "ss" :: rest => SS.handle rest
+  | "c18" :: rest => Shape.handle rest
+  | "c19" :: rest => Config.handle rest
+  | "idx" :: rest => Index.handle rest
+  | "frd" :: rest => FRD.handle rest
   | f :: _ => s!"bad-op family:{f}"
 
 end CtrlVerif.Driver
